@@ -172,26 +172,28 @@ theorem mem_addUsageO (s : Reg) (r r' : RegId) (k : Option Name) (k' : Name) (u 
   | none => simp [addUsage?]
   | some k => simp only [addUsage?, mem_addUsage, Option.some.injEq]; constructor <;> rintro (h | ⟨a, b, c⟩) <;> simp_all
 
+theorem ulook_removeUsageT (s : Reg) (r r' : RegId) (k k' : Name) (u : User) :
+    ulook ((removeUsageT s r k u).usage r') k' =
+      if r' = r ∧ k = k' then OSet.discard (ulook (s.usage r) k) u else ulook (s.usage r') k' := by
+  unfold removeUsageT
+  by_cases he : (OSet.discard (users s r k) u).isEmpty = true
+  · rw [if_pos he, setUsage_usage]
+    rw [OSet.discard_isEmpty, users_eq] at he
+    by_cases hr : r' = r
+    · subst hr
+      by_cases hk : k = k'
+      · subst hk; simp [he]
+      · simp [hk]
+    · simp [hr]
+  · rw [if_neg he, setUsage_usage]
+    by_cases hr : r' = r
+    · subst hr
+      by_cases hk : k = k' <;> simp [hk, users_eq]
+    · simp [hr]
+
 theorem mem_removeUsageT (s : Reg) (r r' : RegId) (k k' : Name) (u x : User) :
     x ∈ ulook ((removeUsageT s r k u).usage r') k' ↔ x ∈ ulook (s.usage r') k' ∧ ¬(r' = r ∧ k' = k ∧ x = u) := by
-  have key : ulook ((removeUsageT s r k u).usage r') k' =
-      if r' = r ∧ k = k' then OSet.discard (ulook (s.usage r) k) u else ulook (s.usage r') k' := by
-    unfold removeUsageT
-    by_cases he : (OSet.discard (users s r k) u).isEmpty = true
-    · rw [if_pos he, setUsage_usage]
-      rw [OSet.discard_isEmpty, users_eq] at he
-      by_cases hr : r' = r
-      · subst hr
-        by_cases hk : k = k'
-        · subst hk; simp [he]
-        · simp [hk]
-      · simp [hr]
-    · rw [if_neg he, setUsage_usage]
-      by_cases hr : r' = r
-      · subst hr
-        by_cases hk : k = k' <;> simp [hk, users_eq]
-      · simp [hr]
-  rw [key]
+  rw [ulook_removeUsageT]
   by_cases hr : r' = r
   · subst hr
     by_cases hk : k = k'
